@@ -261,4 +261,29 @@ Lemma update_state_header_irrelevant : forall st bid h h' res ups pu,
   update_state Hresults vs_update st bid h res ups pu =
   update_state Hresults vs_update st bid h' res ups pu.
 Proof. intros. unfold update_state. rewrite H, H0. reflexivity. Qed.
+
+(* with a parameter update in EndBlock: the next parameters are UpdateConsensusParams of the old
+   ones, they passed ValidateConsensusParams, they are recorded as changed at the next height and
+   the application version follows them; the application hash is left empty in every case *)
+Lemma update_state_params : forall st bid h res ups pu s',
+  update_state Hresults vs_update st bid h res ups pu = US_ok s' ->
+  st_app_hash s' = hv_empty /\
+  forall u, pu = Some u ->
+    st_params s' = update_params (st_params st) u /\ validate_params (st_params s') = 0 /\
+    st_lhpc s' = h_height h + 1 /\ st_vapp s' = p_app_version (st_params s').
+Proof.
+  intros st bid h res ups pu s' H. unfold update_state in H.
+  destruct (match ups with
+            | [] => Some (st_next_vals st, st_lhvc st)
+            | _ :: _ => match vs_update (st_next_vals st) ups with
+                        | Some vs => Some (vs, h_height h + 1 + 1)
+                        | None => None
+                        end
+            end) as [[nv lhvc]|]; [|discriminate].
+  destruct pu as [u|].
+  - destruct (validate_params (update_params (st_params st) u) =? 0) eqn:E; [|discriminate].
+    apply Z.eqb_eq in E. injection H as <-. cbn. split; [reflexivity|].
+    intros u' Eu. injection Eu as <-. repeat split; try reflexivity. exact E.
+  - injection H as <-. cbn. split; [reflexivity|]. intros u Eu. discriminate.
+Qed.
 End Update.
